@@ -43,6 +43,28 @@ for _n in (
     _REAL[_n] = getattr(os, _n)
 
 
+class _OtherDevice:
+    """stat result of a file that is a mount point: same fields, another st_dev."""
+
+    def __init__(self, st: os.stat_result) -> None:
+        self._st = st
+
+    def __getattr__(self, name: str) -> Any:
+        v = getattr(self._st, name)
+        return v + 1 if name == "st_dev" else v
+
+    def __getitem__(self, i: Any) -> Any:
+        v = tuple(self._st)
+        v = v[:2] + (v[2] + 1,) + v[3:]
+        return v[i]
+
+    def __iter__(self) -> Any:
+        return iter(self[:])
+
+    def __len__(self) -> int:
+        return len(self._st)
+
+
 def _ino_of(fd: int) -> int | None:
     try:
         return os.fstat(fd).st_ino
@@ -113,6 +135,7 @@ class Interposer:
         self.crash_at: int | None = None
         self.raws: list[SimRaw] = []
         self.fds: dict[int, str] = {}
+        self.mount_paths: set[str] = set(self.knobs.get("mounts") or [])
         self.chunk_rng = random.Random(self.knobs.get("chunk_seed", 0))
         self.list_rng = random.Random(self.knobs.get("list_seed", 0))
         self.perm_changed = 0
@@ -142,6 +165,18 @@ class Interposer:
         if s.startswith(self.root + os.sep):
             return s[len(self.root) + 1 :]
         return None
+
+    def is_mount(self, rel: str | None, follow: bool) -> bool:
+        """Is this path (relative to the root; parents may be symlinks) one of the mount-point files?"""
+        if rel is None or not self.mount_paths:
+            return False
+        full = os.path.join(self.root, rel)
+        was, self.active = self.active, False  # (the look-up itself is not an operation of the simulated process)
+        try:
+            real = os.path.realpath(full) if follow else os.path.join(os.path.realpath(os.path.dirname(full)), os.path.basename(full))
+        finally:
+            self.active = was
+        return real.startswith(self.root + os.sep) and real[len(self.root) + 1 :] in self.mount_paths
 
     # -- the decision point -------------------------------------------------------------
 
@@ -232,10 +267,16 @@ class Interposer:
                     return real(*a, **kw)
                 o = ip.begin(opname, [p if p is not None else "<outside>" for p in ps])
                 try:
+                    if ip.mount_paths and opname in ("replace", "unlink") and any(ip.is_mount(p, False) for p in ps):
+                        # a file that is a mount point (bind-mounted into a container) can be
+                        # neither renamed, renamed over nor unlinked
+                        raise OSError(_errno.EBUSY, "Device or resource busy", str(a[0]))
                     r = real(*a, **kw)
                 except OSError as e:
                     o.outcome = _errno.errorcode.get(e.errno or 0, "OSError")
                     raise
+                if ip.mount_paths and real_name in ("stat", "lstat") and ip.is_mount(ps[0], real_name == "stat" and kw.get("follow_symlinks", True)):
+                    r = _OtherDevice(r)
                 ip.end(o)
                 return r
 
